@@ -280,10 +280,13 @@ func runC09History(c *Ctx, idx int) {
 		}
 		before := stx.DirSnapshot(dir)
 		lbBefore := listBytes()
-		kinds := []string{"add", "add", "add", "newaddition", "compactall", "autocompact", "clean", "reopen", "add-big", "commit-noauto", "commit-noauto", "compactrange", "add-while-locked", "compactexpiry", "add-old-index"}
+		kinds := []string{"add", "add", "add", "newaddition", "compactall", "autocompact", "clean", "reopen", "add-big", "commit-noauto", "commit-noauto", "compactrange", "add-while-locked", "compactexpiry"}
 		kind := kinds[rng.Intn(len(kinds))]
-		if kind == "add-old-index" && maxUI == 0 {
-			kind = "add"
+		if kind == "add" && maxUI > 0 && (idx*5+op)%6 == 1 {
+			// every sixth plain Add is preceded by an Add carrying an already committed
+			// update index (chosen without the history's PRNG, whose stream stays what it
+			// was before this operation existed)
+			kind = "add-old-index"
 		}
 		if opts.NoLogs && !stale && rng.Chance(0.25) {
 			kind = "compactall"
@@ -380,12 +383,12 @@ func runC09History(c *Ctx, idx int) {
 			// committed in the meantime (the caller computed it before another handle's
 			// Add, or retries a prepared write). It can never commit - the listed ranges
 			// stay strictly increasing - whether or not the handle is stale.
+			orng := gen.NewRng(gen.Mix(c.Seed^0xc09f, int64(idx)*1000+int64(op)))
 			old := maxUI
-			if rng.Chance(0.3) {
+			if orng.Chance(0.3) {
 				old = 1
 			}
-			id++
-			t := gen.GenTxn(rng, id, model, opts)
+			t := gen.GenTxn(orng, 900000+op, model, opts)
 			err := rtx.Safe(func() error {
 				return h.Add(func(w *reftable.Writer) error { return stx.WriteTxn(w, t, old) })
 			})
